@@ -35,6 +35,11 @@ type muxStep struct {
 	// Split > 0 hands the (adapter) stream the frame in two reads, cut after Split%len bytes
 	Pad   int `json:"pad,omitempty"`
 	Split int `json:"split,omitempty"`
+	// deliver: Decoy > 0 adds response headers that mention ANOTHER request's op id without being
+	// the _opid header: 1 = before _opid, a header whose value holds an encoded "_opid=<other>" pair
+	// (forwarded baggage); 2 = the same after _opid; 3 = headers named x_opid / _OPID / _opid2 first;
+	// 4 = a header whose NAME holds the encoded pair. The frame still belongs to its own request.
+	Decoy int `json:"decoy,omitempty"`
 }
 
 type muxCase struct {
@@ -135,6 +140,7 @@ type muxSession struct {
 	seq      int
 	pad      int
 	split    int
+	decoy    int
 	trace    []string
 	cleanups []func()
 }
@@ -252,7 +258,29 @@ func (s *muxSession) response(opidStr string, nonceOp uint64, copyNo int) []byte
 	if s.pad > 0 {
 		payload += "|" + strings.Repeat("p", s.pad)
 	}
-	return frameContent([]KV{kv("_opid", opidStr), kv("_cid", "c")}, []byte(payload))
+	hdrs := []KV{kv("_opid", opidStr), kv("_cid", "c")}
+	if s.decoy > 0 {
+		// the op id of some other request (in flight if there is one)
+		other := nonceOp + 1
+		for _, cl := range s.callers {
+			if cl.opid != nonceOp && !cl.isDone() {
+				other = cl.opid
+				break
+			}
+		}
+		pair := refEncodeHeaders([]KV{kv("_opid", fmt.Sprint(other))})[5:]
+		switch s.decoy {
+		case 1:
+			hdrs = append([]KV{{[]byte("baggage"), pair}}, hdrs...)
+		case 2:
+			hdrs = append(hdrs, KV{[]byte("baggage"), pair})
+		case 3:
+			hdrs = append([]KV{kv("x_opid", fmt.Sprint(other)), kv("_OPID", fmt.Sprint(other)), kv("_opid2", fmt.Sprint(other))}, hdrs...)
+		default:
+			hdrs = append([]KV{{pair, []byte("v")}}, hdrs...)
+		}
+	}
+	return frameContent(hdrs, []byte(payload))
 }
 
 func (s *muxSession) feed(opidStr string, content []byte) {
@@ -308,8 +336,8 @@ func (cl *muxCaller) isDone() bool {
 }
 
 func (s *muxSession) deliver(st muxStep) {
-	s.pad, s.split = st.Pad, st.Split
-	defer func() { s.pad, s.split = 0, 0 }()
+	s.pad, s.split, s.decoy = st.Pad, st.Split, st.Decoy
+	defer func() { s.pad, s.split, s.decoy = 0, 0, 0 }()
 	copies := st.Copies
 	if copies < 1 {
 		copies = 1
@@ -590,6 +618,9 @@ func genMuxStep(t *rapid.T, controlled bool, maxCopies int, emphasis string) mux
 		if rapid.IntRange(0, 3).Draw(t, "split?") == 0 {
 			st.Split = rapid.SampledFrom([]int{1, 2, 3, 4, 5, 6, 9, 20, 40}).Draw(t, "split")
 		}
+		if rapid.IntRange(0, 2).Draw(t, "decoy?") == 0 {
+			st.Decoy = rapid.IntRange(1, 4).Draw(t, "decoy")
+		}
 	case "await":
 		st.Caller = rapid.IntRange(0, 9).Draw(t, "idx")
 	case "sleep":
@@ -650,6 +681,9 @@ func classifyMux(c muxCase) ev.Class {
 	for _, st := range c.Steps {
 		if st.Op == "deliver" && st.Pad >= 1000 {
 			labels = append(labels, "padded-frames")
+		}
+		if st.Op == "deliver" && st.Decoy > 0 {
+			labels = append(labels, "decoy-opid-in-other-header")
 		}
 		if st.Op == "deliver" && st.Split > 0 && st.Split <= 4 && c.Transport == "adapter" {
 			labels = append(labels, "frame-size-prefix-split-across-reads")
